@@ -11,13 +11,12 @@ Prod(N, I, B, E) == [nc : N, mi : I, mb : B, ev : E]
 \* R1: every combination, including values CacheConfig.Verify rejects (0 chunks, 3 items, 3 bytes, 0 evictions)
 \* and limits below / not divisible by the chunk count
 CfgR1Quick    == Prod({0, 1, 2, 5}, {3, 4, 5}, {3, 4, 7}, {0, 1, 2})
-CfgR1Thorough == Prod({0, 1, 2, 3, 5}, {3, 4, 5, 6, 9}, {3, 4, 7, 12}, {0, 1, 2, 4, 6})
+CfgR1Thorough == Prod({0, 1, 2, 3, 5}, {3, 4, 5, 6}, {3, 4, 7}, {0, 1, 2, 4})
 CfgR1Two      == Prod({2, 3}, {4, 5, 7}, {4, 7}, {1, 2, 4})
 \* R2 (behaviour export): one configuration per class of per-chunk configuration
 CfgGenQuick == {C(1, 4, 4, 1), C(2, 4, 7, 2), C(2, 5, 4, 4), C(2, 4, 7, 1), C(5, 4, 7, 4), C(5, 5, 4, 5),
                 C(0, 4, 4, 1), C(1, 3, 4, 1), C(1, 4, 3, 1), C(1, 4, 4, 0)}
-CfgGenThorough == CfgGenQuick \cup {C(1, 5, 7, 2), C(2, 5, 7, 3), C(3, 4, 7, 2), C(3, 9, 12, 6), C(1, 4, 7, 2), C(2, 6, 12, 1),
-                                    C(5, 9, 12, 4), C(2, 9, 4, 2)}
+CfgGenThorough == CfgGenQuick \cup {C(1, 5, 7, 2), C(2, 5, 7, 3), C(3, 4, 7, 2), C(2, 6, 12, 1)}
 CfgSim == Prod({1, 2, 3, 5}, {4, 5, 6, 9}, {4, 7, 12}, {1, 2, 4, 6})
 \* behaviour export (see specs/CapLRU/MC_CapLRU.tla): one behaviour per transition of the abstract state graph
 GenNext  == Len(hist) < Depth /\ Next
